@@ -128,7 +128,9 @@ func (s *monoSess) randomGeomOp() {
 		emit("mono.inv", r.Bool())
 		return
 	}
-	switch r.Intn(4) {
+	switch r.Intn(5) {
+	case 4: // origin a multiple of 8 left of / above the canvas (byte-index wrap hazard), box still covering the canvas
+		emit("mono.bbox", -8*r.Range(1, 3), r.Range(-9, 2), s.w+r.Range(8, 40), s.h+r.Range(0, 20))
 	case 0:
 		emit("mono.bbox", 0, 0, s.w, s.h)
 	case 1: // inside
